@@ -27,7 +27,10 @@ const SECOND_DAYS: [(i32, u32, u32); 8] = [(1900, 1, 1), (1900, 2, 28), (1900, 3
 const MAIN_FMT: &str = "yyyy-mm-dd hh:mm:ss";
 const MONTH_ABBR: [&str; 12] = ["Jan", "Feb", "Mar", "Apr", "May", "Jun", "Jul", "Aug", "Sep", "Oct", "Nov", "Dec"];
 /// secondary date formats (rendered by `render`)
-const EXTRA_FMTS: [&str; 5] = ["yyyy-mm-dd", "dd/mm/yyyy", "m/d/yyyy", "m/d/yyyy h:mm", "d-mmm-yy"];
+const EXTRA_FMTS: [&str; 7] = ["yyyy-mm-dd", "dd/mm/yyyy", "m/d/yyyy", "m/d/yyyy h:mm", "d-mmm-yy", COND_FMTS[0], COND_FMTS[1]];
+/// two-section codes whose FIRST section has a condition: a serial below 1 is a time of day, anything else a date;
+/// which section applies is decided by the value's magnitude, not by its sign
+const COND_FMTS: [&str; 2] = ["[<1]h:mm:ss;yyyy-mm-dd hh:mm:ss", "[<1]h:mm:ss;yyyy-mm-dd"];
 
 // ------------------------------------------------------------------------------------------------
 // independent calendar
@@ -80,6 +83,7 @@ fn render(fmt: &str, y: i32, m: u32, d: u32, secs: u32) -> String {
         "m/d/yyyy" => format!("{}/{}/{:04}", m, d, y),
         "m/d/yyyy h:mm" => format!("{}/{}/{:04} {}:{:02}", m, d, y, h, mi),
         "d-mmm-yy" => format!("{}-{}-{:02}", d, MONTH_ABBR[(m - 1) as usize], y % 100),
+        "[<1]h:mm:ss;yyyy-mm-dd" => format!("{:04}-{:02}-{:02}", y, m, d),
         _ => stamp(y, m, d, secs),
     }
 }
@@ -320,6 +324,21 @@ impl Space for Display {
         }
     }
     fn run(&self, i: u64, sink: &mut Sink) {
+        // before the dates of a case: the conditional codes shown a TIME OF DAY (their other section); whatever the
+        // library remembers about a code from that must not decide how the dates that follow are shown
+        for f in COND_FMTS {
+            for (serial, want) in [("0.25", "6:00:00"), ("0.75", "18:00:00")] {
+                sink.evaluations += 1;
+                match guarded(move || to_formatted_string(serial, f)) {
+                    Err(msg) => sink.violations.push(Violation::new("display", &format!("panic:{}", panic_class(&msg)), &["fmt-conditional"], json!({"kind":"display-time-of-day","serial":serial,"format":f}), msg)),
+                    Ok(got) => {
+                        if got != want {
+                            sink.violations.push(Violation::new("display", "time-of-day-under-conditional-code", &["fmt-conditional"], json!({"kind":"display-time-of-day","serial":serial,"format":f}), format!("serial {} with format {:?} displays {:?}, expected {:?}", serial, f, got, want)));
+                        }
+                    }
+                }
+            }
+        }
         let ny = (Y1 - Y0 + 1) as u64;
         if i >= ny {
             let j = i - ny;
